@@ -319,7 +319,7 @@ def run(F, res, tier):
 MANIFEST_DEP_TABLES = ("dependencies", "dev-dependencies")
 
 
-def v6(F, res):
+def v6(F, res, rule6="V6", rule7="V7"):
     """V6: which packages are foreign is decided from each package's OWN root path (…/build/packages/<name>), by
     nothing the caller passes in and by nothing about the package that happens to depend on it."""
     ag0 = F.fn("glas::server::Server::assemble_graph")
@@ -330,7 +330,7 @@ def v6(F, res):
     d = FL.Defs(ag)
     adds = [(b, t) for b, t in ag.calls() if FL.short(callee(t) or callee_def(t)) == "PackageGraph::add_package"]
     if not adds:
-        res.anchor_missing("V6", "PackageGraph::add_package call in Server::assemble_graph")
+        res.anchor_missing(rule6, "PackageGraph::add_package call in Server::assemble_graph")
         return
     # V7: every table of gleam.toml whose entries gleam fetches into build/packages is followed — a fetched package that
     # is never registered has no package of its own, its files fall to the enclosing (local) root package and become
@@ -349,7 +349,7 @@ def v6(F, res):
                 if isinstance(a_.get("k"), dict) and "str" in a_["k"]:
                     lits.add(a_["k"]["str"])
     for table in MANIFEST_DEP_TABLES:
-        res.ob("V7", "assemble_graph/follows/%s" % table, "assemble_graph reads the `%s` table of gleam.toml (packages fetched for it live under "
+        res.ob(rule7, "assemble_graph/follows/%s" % table, "assemble_graph reads the `%s` table of gleam.toml (packages fetched for it live under "
                "build/packages and must be registered as foreign packages)" % table, table in lits, where=ag.loc(),
                how="gleam.toml keys read: %s" % sorted(x for x in lits if x.replace("-", "").isalpha() and len(x) < 20))
     names = [x.get("name") for x in ag.d.get("debug", [])]
@@ -362,7 +362,7 @@ def v6(F, res):
                 argn[pl["l"]] = dbg.get("name")
         params = sorted(argn.get(a, "_%d" % a) for a in dep["args"])
         ok = params == ["root_path"] and {"packages", "build"} <= dep["strs"] and any(c.endswith("Path::ends_with") or c.endswith("Path::components") or c.endswith("Path::starts_with") for c in dep["calls"])
-        res.ob("V6", "assemble_graph/locality-from-own-path/%d" % i,
+        res.ob(rule6, "assemble_graph/locality-from-own-path/%d" % i,
                "the `is_local` flag a package is registered with is computed from that package's own root path (its parent directories being "
                "`build/packages`) and from no other parameter", ok, where=ag.loc(t["ln"]),
                how="depends on parameters %s, path literals %s" % (params, sorted(x for x in dep["strs"] if len(x) < 20)))
@@ -460,7 +460,7 @@ def edits_only_in_local_files(F, res, rule="V8"):
                "no locality test of the edited file's package between the usage search and this edit (only the definition's package is tested)")
 
 
-def locality_comes_from_the_registered_path(F, res, rule="V9"):
+def locality_comes_from_the_registered_path(F, res, rule="V9", rule10="V10"):
     """V9/V10: `is_local` is what every locality gate reads (V3, V8). It is decided in Server::assemble_graph from the *shape* of
     the package's root path (<..>/build/packages/<dep> is a dependency), and the files are dealt to the roots in
     Server::lower_vfs by longest matching prefix. Both steps are part of "no edit ever touches a file of a dependency":
@@ -501,7 +501,7 @@ def locality_comes_from_the_registered_path(F, res, rule="V9"):
     ins = [b for b, t in lv.calls() if (callee(t) or "").endswith("FileSet::insert")]
     ok10 = bool(srt) and bool(ins) and all(any(lv.dominates(s_, i) for s_ in srt) or any(lv.can_reach(h, [s_]) for s_ in srt for h in [i] if False) for i in ins)
     # max_by_key form: the chosen root originates from the selection itself
-    res.ob("V10", "lower_vfs/longest-root-first", "lower_vfs orders (or selects) the candidate roots by their length before it deals a file to the first "
+    res.ob(rule10, "lower_vfs/longest-root-first", "lower_vfs orders (or selects) the candidate roots by their length before it deals a file to the first "
            "match", ok10, where=lv.loc(), how="orderings by a length: %d, FileSet insertions: %d, each after one: %s" % (len(srt), len(ins), ok10))
 
 
